@@ -284,10 +284,28 @@ def check_any(ctx, case):
     judge(ctx, case['text'], k)
 
 
+def run_atheris(ctx, fam, n):
+    from vlib import fuzzing
+
+    def recheck(text):
+        cls, detail = read(text)
+        out = []
+        if cls not in GOOD and cls != 'watchdog':
+            out.append((cls, '%s: %s\ntext: %r' % (cls, detail, text[:300])))
+        if cls == 'accepted' and text.endswith(' }') and read(text[:-2])[0] == 'accepted':
+            out.append(('trailing-text-accepted', 'accepted although followed by junk: %r' % text[:300]))
+        return out
+    fuzzing.campaign(ctx, 'c09', n, recheck, corpus=LABEL_CASES[:4] + STEREO_TEXTS + UNSUPPORTED[:3])
+    ctx.begin('atheris', dict(kind='random', text='fragment a{C labeled c1}'))
+    ctx.case(nontrivial=True, key=['atheris', ctx.shard], sample=dict(family='atheris', note='coverage-guided campaign, see histogram'), evals=0)
+
+
 FAMILIES = [
     Family('fixed', check_any, enumerate=enum_fixed),
     Family('valid', check_any, strategy=lambda tier: valid_text().map(lambda t: dict(kind='valid', text=t)), n=(1500, 60000)),
     Family('prefixes', check_any, strategy=lambda tier: valid_text().map(lambda t: dict(kind='prefixes', text=t)), n=(160, 6000)),
     Family('mutated', check_any, strategy=lambda tier: mutated_text(), n=(6000, 300000)),
     Family('random-text', check_any, strategy=lambda tier: random_text().map(lambda t: dict(kind='random', text=t)), n=(3000, 200000)),
+    # thorough tier only: one libFuzzer campaign per shard (empty corpus on even shards, seeded on odd ones)
+    Family('atheris', lambda ctx, case: judge(ctx, case['text'], 'atheris'), stateful=run_atheris, n=(0, 16 * 250000)),
 ]
